@@ -1349,8 +1349,39 @@ pub(crate) fn m_selector_entry() {
     }
 }
 
+/// An id changes nothing but the markers: the text lines with and without it are the same, also under max_wrap_width.
+pub(crate) fn m_frag_layout() {
+    let _which: u8 = kani::any();
+    let docs: [(&str, &str); 4] = [
+        ("<p id=\"x\">aaa bbb ccc ddd eee fff</p>", "<p>aaa bbb ccc ddd eee fff</p>"),
+        ("<div id=\"x\">aaa bbb ccc ddd eee fff</div><p>tail</p>", "<div>aaa bbb ccc ddd eee fff</div><p>tail</p>"),
+        ("<ul><li id=\"x\">aaa bbb ccc ddd eee fff</li></ul>", "<ul><li>aaa bbb ccc ddd eee fff</li></ul>"),
+        ("<p>zz <a name=\"x\"></a><span id=\"y\">aaa bbb ccc</span> ddd eee fff</p>", "<p>zz <a></a><span>aaa bbb ccc</span> ddd eee fff</p>"),
+    ];
+    for (with, without) in docs.iter() {
+        for (mw, width) in [(10usize, 40usize), (7, 12), (100, 9), (3, 30)] {
+            let a = crate::config::plain().max_wrap_width(mw).string_from_read(with.as_bytes(), width);
+            let b = crate::config::plain().max_wrap_width(mw).string_from_read(without.as_bytes(), width);
+            assert!(a == b, "{} at width {} (max {}): the id changes the text: {:?} vs {:?}", with, width, mw, a, b);
+        }
+    }
+}
+
+/// <sup> keeps all its children; only a lone run of digits is replaced by superscript characters.
+pub(crate) fn m_sup_children() {
+    let _which: u8 = kani::any();
+    let r = |h: &str| crate::config::plain().string_from_read(h.as_bytes(), 40).expect("renders");
+    assert!(r("<p>x<sup>12</sup></p>").contains("x\u{b9}\u{b2}"), "digits shortcut");
+    let out = r("<p>the 2<sup>1<em>st</em></sup> of May</p>");
+    assert!(out.contains("st"), "a child of <sup> is lost: {:?}", out);
+    let out = r("<p>x<sup>1<!-- c -->2</sup> y</p>");
+    assert!(out.matches('2').count() + out.matches('\u{b2}').count() == 1, "second text child of <sup> lost or duplicated: {:?}", out);
+    let out = r("<p>a<sup><b>7</b>zz<i>8</i></sup></p>");
+    assert!(out.contains("7") && out.contains("zz") && out.contains("8"), "children of <sup> lost: {:?}", out);
+}
+
 crate::verif_common::registry! {
-    m_selector_entry, m_block_colour_leak, m_footnote_list, m_strike_layout, m_element_dispatch, m_link_min_width, m_table_sections, m_table_caption, m_inline_tags, m_colspan_huge, m_frag_in_word, m_ol_prefix_width, m_dom_reuse, m_columns, m_prefix_blank_lines, m_shallow_empty, m_link_footnotes, m_strike_affix, m_frag_nested, m_dom_children, m_cell_unwind, m_routes_width, m_insert_child, m_ol_numbering, m_prefix_width, m_into_cells, m_table_col_width, m_table_alloc,
+    m_sup_children, m_frag_layout, m_selector_entry, m_block_colour_leak, m_footnote_list, m_strike_layout, m_element_dispatch, m_link_min_width, m_table_sections, m_table_caption, m_inline_tags, m_colspan_huge, m_frag_in_word, m_ol_prefix_width, m_dom_reuse, m_columns, m_prefix_blank_lines, m_shallow_empty, m_link_footnotes, m_strike_affix, m_frag_nested, m_dom_children, m_cell_unwind, m_routes_width, m_insert_child, m_ol_numbering, m_prefix_width, m_into_cells, m_table_col_width, m_table_alloc,
     r1_cascade_pairs, r1_cascade_triples, r2_specificity_order, r2_specificity_add,
     r3_ol_prefix_total, r4_ol_prefix_is_max,
     r9_tree_map_reduce_order, r12_config_plumbing, r12_width_zero,
